@@ -53,6 +53,15 @@ T_Config ==
   /\ ResetAll(E.window, E.queue, E.pubpar, E.subpar, E.auth, E.ackmode)
 
 NoChange == UNCHANGED vars
+\* observation clock (milliseconds, logged with every event; used only for "not earlier than" with generous slack): when did this
+\* connection's dequeuer last do anything (obtain a token, get a message, send it) - it can have been waiting for a token only since then
+RECURSIVE LastTokenTs(_, _)
+LastTokenTs(c, j) == IF j < 1 \/ Trace[j].tr # E.tr \/ Trace[j].ev = "config" THEN 0
+                     ELSE IF "c" \in DOMAIN Trace[j] /\ Trace[j].c = c /\ (Trace[j].ev \in {"deq.call", "deq.ret", "restore"} \/ (Trace[j].ev = "bsend" /\ Trace[j].pkt.t = "PUBLISH"))
+                          THEN Trace[j].ts
+                     ELSE LastTokenTs(c, j - 1)
+RECURSIVE TokenMs(_)
+TokenMs(j) == IF j < 1 THEN 0 ELSE IF Trace[j].ev = "config" /\ Trace[j].tr = E.tr THEN Trace[j].token_ms ELSE TokenMs(j - 1)
 
 T_PeerSide ==
   \/ IsEvent("popen") /\ PeerOpen(C)
@@ -71,6 +80,8 @@ T_Conn ==
   \/ IsEvent("brecv_err") /\ BRecvErr(C, E.err)
   \/ IsEvent("bclose") /\ BClose(C)
   \/ IsEvent("die") /\ Die(C, E.class, E.err)
+                      \* a token timeout is reported only after the window has been exhausted for (at least half of) the configured time
+                      /\ G("C16", "TokenTimeoutOnlyAfterWaiting", E.err = "token timeout" => (tok[C].d = 0 /\ E.ts - LastTokenTs(C, l - 1) >= TokenMs(l) \div 2))
   \/ IsEvent("bsend_err") /\ (SendErrProc(C) \/ SendErrAck(C, E.pkt) \/ SendErrDeq(C, E.pkt))
   \/ IsEvent("bsend") /\
        CASE E.pkt.t = "CONNACK" -> SendConnackDenied(C, E.pkt) \/ SendConnack(C, E.pkt)
